@@ -1,0 +1,40 @@
+//go:build verif
+
+package rewriter
+
+import (
+	"io"
+	"os"
+	"path/filepath"
+)
+
+// verifKeepStage copies the unoptimised stage output (tmp) to $GOCO_VERIF_STAGE_DIR
+// before it is removed; used by the verification harness only.
+func verifKeepStage(tmp string) {
+	dst := os.Getenv("GOCO_VERIF_STAGE_DIR")
+	if dst == "" {
+		return
+	}
+	_ = filepath.Walk(tmp, func(p string, info os.FileInfo, err error) error {
+		if err != nil {
+			return err
+		}
+		rel, _ := filepath.Rel(tmp, p)
+		out := filepath.Join(dst, rel)
+		if info.IsDir() {
+			return os.MkdirAll(out, 0o755)
+		}
+		src, err := os.Open(p)
+		if err != nil {
+			return err
+		}
+		defer src.Close()
+		f, err := os.Create(out)
+		if err != nil {
+			return err
+		}
+		defer f.Close()
+		_, err = io.Copy(f, src)
+		return err
+	})
+}
